@@ -243,6 +243,13 @@ func (s *Session) onRequest(req *Request) (err error) {
 func (s *Session) onDescribe(resp *Response, req *Request) {
 
 	// TODO: 检查 accept 中的类型是否包含 sdp
+	// 被拒绝的 DESCRIBE 不能改变会话已有的 url/path(否则之后的 SETUP/PLAY 指向错误的流)
+	oldURL, oldPath := s.url, s.path
+	defer func() {
+		if resp.StatusCode != StatusOK {
+			s.url, s.path = oldURL, oldPath
+		}
+	}()
 	s.url = req.URL
 	if s.wsconn == nil { // websocket访问的路径有ws://路径表示
 		s.path = utils.CanonicalPath(req.URL.Path)
